@@ -113,6 +113,19 @@ pub fn request(r: &mut Rng, max_body: usize) -> Msg {
 }
 
 pub fn response(r: &mut Rng, max_body: usize) -> Msg {
+    // one response in eight is preceded by an interim "100 Continue" head in the same direction: the
+    // stream then *starts* with that head, and it is the one whose report must not depend on delivery
+    if r.chance(1, 8) {
+        let interim = b"HTTP/1.1 100 Continue\r\n\r\n".to_vec();
+        let fin = response_plain(r, max_body);
+        let mut bytes = interim.clone();
+        bytes.extend_from_slice(&fin.bytes);
+        return Msg { bytes, head_len: interim.len() };
+    }
+    response_plain(r, max_body)
+}
+
+fn response_plain(r: &mut Rng, max_body: usize) -> Msg {
     let ver = if r.chance(1, 6) { "HTTP/1.0" } else { "HTTP/1.1" };
     let (code, reason) = *r.pick(&[(200, "OK"), (404, "Not Found"), (301, "Moved Permanently"), (500, "Internal Server Error"), (204, "No Content"), (304, "Not Modified")]);
     let mut h = format!("{} {} {}\r\n", ver, code, reason);
@@ -152,6 +165,57 @@ pub fn response(r: &mut Rng, max_body: usize) -> Msg {
     let mut bytes = h.into_bytes();
     bytes.extend_from_slice(&b);
     Msg { bytes, head_len }
+}
+
+/// text of about `n` bytes mixing ASCII with 2-, 3- and 4-byte UTF-8 characters at arbitrary offsets
+pub fn utf8_text(r: &mut Rng, n: usize, spaces: bool) -> String {
+    const WIDE: [&str; 8] = ["\u{e9}", "\u{fc}", "\u{3b1}", "\u{2603}", "\u{4e2d}", "\u{6587}", "\u{1f600}", "\u{df}"];
+    let mut s = String::new();
+    while s.len() < n {
+        match r.below(6) {
+            0 | 1 => s.push_str(WIDE[r.usize_below(WIDE.len())]),
+            2 if spaces => s.push(' '),
+            _ => s.push((b'a' + r.below(26) as u8) as char),
+        }
+    }
+    s
+}
+
+/// Legal but unusual heads: very long lines, non-ASCII text at every offset, lines without a colon,
+/// many tokens in the start line. (Reason phrases, header values and, in practice, targets may carry
+/// non-ASCII bytes.)
+pub fn exotic_request(r: &mut Rng) -> Msg {
+    let tn = r.urange(1, 400);
+    let target = format!("/{}", utf8_text(r, tn, false));
+    let mut h = format!("{} {} HTTP/1.1\r\n", r.pick(&METHODS), target);
+    h.push_str(&format!("Host: {}.example.test\r\n", token(r, 5)));
+    for _ in 0..r.urange(0, 5) {
+        let n = r.urange(1, 300);
+        match r.below(3) {
+            0 => h.push_str(&format!("X-{}: {}\r\n", token(r, 4), utf8_text(r, n, true))),
+            1 => h.push_str(&format!("{}\r\n", utf8_text(r, n, true))), // no colon
+            _ => h.push_str(&format!("{}: {}\r\n", utf8_text(r, n.min(60), false), token(r, 5))),
+        }
+    }
+    h.push_str("\r\n");
+    let head_len = h.len();
+    Msg { bytes: h.into_bytes(), head_len }
+}
+
+pub fn exotic_response(r: &mut Rng) -> Msg {
+    let n = r.urange(1, 400);
+    let sp = r.chance(2, 3);
+    let reason = utf8_text(r, n, sp);
+    let mut h = format!("HTTP/1.{} {} {}\r\n", r.below(2), r.pick(&[200, 404, 500, 302]), reason);
+    let sn = r.urange(1, 200);
+    h.push_str(&format!("Server: {}\r\n", utf8_text(r, sn, true)));
+    for _ in 0..r.urange(0, 4) {
+        let n = r.urange(1, 300);
+        h.push_str(&format!("X-{}: {}\r\n", token(r, 4), utf8_text(r, n, true)));
+    }
+    h.push_str("Content-Length: 0\r\n\r\n");
+    let head_len = h.len();
+    Msg { bytes: h.into_bytes(), head_len }
 }
 
 /// A head that never completes (no blank line), `n` bytes long.
